@@ -106,3 +106,35 @@ package faults
 //@                 (exists j int :: 0 <= j && j <= idx && l[j].Count == ll[i].Count && l[j].Operation == ll[i].Operation && l[j].Parameters == ll[i].Parameters && l[j].FaultDescription == ll[i].FaultDescription)
 //@     invariant lcomplete: forall j int :: {l[j]} 0 <= j && j <= idx && l[j].Count > 0 ==>
 //@                 (exists i int :: 0 <= i && i < len(ll) && ll[i].Count == l[j].Count && ll[i].Operation == l[j].Operation && ll[i].Parameters == l[j].Parameters)
+
+// C18: pruning (run in the background after a fault is used up) never loses an injection: every descriptor with
+// injections left stays configured under its operation, nothing is invented (every entry was an entry of the same
+// operation before) and no counter changes (sequential reading, under the set's lock). That exhausted descriptors
+// are actually dropped is not demanded: matching and the listing look at the counters themselves.
+//@ func (*Set).prune(s)
+//@   property C18
+//@   uses faultspec
+//@   requires s != nil && set_wf(s)
+//@   ensures wf: set_wf(s)
+//@   ensures counts_kept: forall d *Description :: d.Count == old(d.Count)
+//@   ensures live_kept: forall o string, j int :: {old(s.faults[o][j])} old(has(s.faults, o)) && 0 <= j && j < old(len(s.faults[o])) && old(s.faults[o][j].Count) > 0 ==>
+//@             has(s.faults, o) && (exists i int :: 0 <= i && i < len(s.faults[o]) && s.faults[o][i] == old(s.faults[o][j]))
+//@   ensures nothing_invented: forall o string, i int :: {s.faults[o][i]} has(s.faults, o) && 0 <= i && i < len(s.faults[o]) ==> old(has(s.faults, o)) &&
+//@             (exists j int :: 0 <= j && j < old(len(s.faults[o])) && old(s.faults[o][j]) == s.faults[o][i])
+//@   loop 1
+//@     invariant s != nil && set_wf(s)
+//@     invariant same_arrays: forall o2 string :: {has(s.faults, o2)} has(s.faults, o2) ==> old(has(s.faults, o2)) && s.faults[o2].base == old(s.faults[o2].base)
+//@     invariant unvisited_header: forall o2 string :: {visited(o2)} !visited(o2) ==> has(s.faults, o2) == old(has(s.faults, o2)) && len(s.faults[o2]) == old(len(s.faults[o2]))
+//@     invariant unvisited_elems: forall o2 string, j int :: {s.faults[o2][j]} !visited(o2) && has(s.faults, o2) && 0 <= j && j < len(s.faults[o2]) ==> s.faults[o2][j] == old(s.faults[o2][j])
+//@     invariant done_nothing_invented: forall o2 string, i int :: {s.faults[o2][i]} visited(o2) && has(s.faults, o2) && 0 <= i && i < len(s.faults[o2]) ==>
+//@                 (exists j int :: 0 <= j && j < old(len(s.faults[o2])) && old(s.faults[o2][j]) == s.faults[o2][i])
+//@     invariant done_live_kept: forall o2 string, j int :: {old(s.faults[o2][j])} visited(o2) && old(has(s.faults, o2)) && 0 <= j && j < old(len(s.faults[o2])) && old(s.faults[o2][j].Count) > 0 ==>
+//@                 has(s.faults, o2) && (exists i int :: 0 <= i && i < len(s.faults[o2]) && s.faults[o2][i] == old(s.faults[o2][j]))
+//@   loop 2
+//@     invariant s != nil && set_wf(s) && has(s.faults, o) && s.faults[o] == l && visited(o)
+//@     invariant 0 <= dest && dest <= idx + 1 && idx < len(l)
+//@     invariant unvisited_elems: forall o2 string, j int :: {s.faults[o2][j]} !visited(o2) && has(s.faults, o2) && 0 <= j && j < len(s.faults[o2]) ==> s.faults[o2][j] == old(s.faults[o2][j])
+//@     invariant others_untouched: forall o2 string, i int :: {s.faults[o2][i]} {entry(s.faults[o2][i])} o2 != o && has(s.faults, o2) && 0 <= i && i < len(s.faults[o2]) ==> s.faults[o2][i] == entry(s.faults[o2][i])
+//@     invariant tail_untouched: forall k int :: {l[k]} idx < k && k < len(l) ==> l[k] == old(s.faults[o][k])
+//@     invariant packed_nothing_invented: forall i int :: {l[i]} 0 <= i && i < dest ==> (exists j int :: 0 <= j && j <= idx && old(s.faults[o][j]) == l[i])
+//@     invariant packed_live_kept: forall j int :: {old(s.faults[o][j])} 0 <= j && j <= idx && old(s.faults[o][j].Count) > 0 ==> (exists i int :: 0 <= i && i < dest && l[i] == old(s.faults[o][j]))
